@@ -19,6 +19,11 @@ P = {
  "C17": ("affine view model; float views decided exactly against the rational within 8 ulp", "3.C17"),
  "C18": ("M-FLOAT: exact rational comparison out, bit-exact trunc(IEEE product) in, Duration*f64 tolerance, logical step budget hook", "3.C18"),
  "C20": ("week/time-of-week, ns counters, day-of-year models", "3.C20"),
+ "C10": ("harness-built ISO/RFC3339 texts with all offsets and fractional digit counts, Display/formatter/serde/RFC3339 round trips, JD/MJD/SEC numeric forms", "3.C10"),
+ "C12": ("chronological order of M-SCALE instants over all 81 scale pairs, swap symmetry, conversion invariance, triples, sort", "3.C12"),
+ "C13": ("grammar + mutation string workload over every parsing entry point; outcome must be value or Err; out-of-range lattice must be Err", "3.C13"),
+ "C15": ("item-by-item model of TimeSeries iteration incl. count, termination and cross-scale spans", "3.C15"),
+ "C19": ("harness renderer (M-TEXT) for random 1..16-token formats, offsets, constants; parse-back of the formatter's own output", "3.C19"),
 }
 IMPLEMENTED = sorted(P.keys())
 ALL = ["C%02d" % i for i in range(1, 21)]
